@@ -32,7 +32,8 @@ def run(ctx):
 
 def replay(obj):
     case = obj["case"]
-    if "text" in case:
-        import hera.parser as P
-        return obj.get("what") if obj.get("stream") == "ifdef" else None
-    return obj.get("what")
+    if obj.get("stream") == "ifdef":
+        return ifdefs.replay_case(case)
+    if obj.get("stream") == "includes":
+        return includes.replay_case(case)
+    return None
